@@ -137,3 +137,12 @@ chk("C17", MC,
     "entry gets the stored offset, size, bit position; misaligned byte entries are rejected.",
     PY_NOTE + " SII model per the ESC register description (0x502 control/status, 0x504 address, 0x508 data).",
     "symbolic execution of the real coroutines against a register-level EEPROM interface model (z3, path-exhaustive)", "B:8/C17")
+
+chk("C18", MC,
+    "The real SyncGroupBase.__init__/allocate, EBPFTerminal.allocate, AerotechBase.allocate, SterilePacket.append_fmmu and "
+    "EtherCat.get_fmmu_addr run symbolically with EVERY input/output size (and Aerotech packet size) a solver variable 0..1500; "
+    "terminal kinds (FMMU/direct/Aerotech), read-write flags and 1-2 (3) groups enumerated. The assembled frame is walked "
+    "independently: each region has exactly its size and lies inside its transporting datagram, regions are pairwise disjoint, "
+    "FMMU logical addresses map to the same bytes, direct datagrams are exactly the region, logical windows of different groups "
+    "are disjoint, and a group is rejected only if it really does not fit into one frame.",
+    PY_NOTE, "symbolic execution of the real allocation code with symbolic sizes over byte ropes (z3, path-exhaustive)", "B:8/C18")
